@@ -26,7 +26,14 @@ def sh(cmd, **kw):
 CXXSTD = ["-std=c++17"]
 
 
+DEMO_BUILD = [None]
+
+
 def build_demo_cpp(tree, cfg, demo, out):
+    if DEMO_BUILD[0]:
+        sh_cmd = DEMO_BUILD[0].format(tree=tree, src=os.path.join(tree, "src", "Imath"), cfg=cfg, demo=demo, out=out, demodir=os.path.dirname(os.path.abspath(demo)))
+        r = sh(["bash", "-c", sh_cmd])
+        return r.returncode == 0 and os.path.exists(out), r.stdout[-1500:]
     cmd = ["g++"] + CXXSTD + ["-O1", "-I", cfg, "-I", os.path.join(tree, "src", "Imath"), demo] + [os.path.join(tree, "src", "Imath", l) for l in LIBS] + ["-o", out, "-lm"]
     r = sh(cmd)
     return r.returncode == 0, r.stdout[-1500:]
@@ -58,7 +65,9 @@ def main():
     ap.add_argument("--name")
     ap.add_argument("--cxxstd", help="language standard the demonstration needs (default c++17)")
     ap.add_argument("--demo-flag", action="append", default=[], help="extra compiler flag the demonstration needs (e.g. -DNDEBUG)")
+    ap.add_argument("--demo-build", help="shell command building the demonstration; placeholders {tree} {src} {cfg} {demo} {out} {demodir}")
     a = ap.parse_args()
+    DEMO_BUILD[0] = a.demo_build
     if a.cxxstd:
         CXXSTD[0] = "-std=" + a.cxxstd
     CXXSTD.extend(a.demo_flag)
@@ -159,11 +168,16 @@ def main():
         dst = os.path.join(VERIF, "seeded", "%s-%s" % (a.prop, k))
         if ok:
             os.makedirs(dst, exist_ok=True)
-            shutil.copy(patch, os.path.join(dst, "patch.diff"))
-            shutil.copy(demo, os.path.join(dst, os.path.basename(demo)))
+            def cp(src_, dst_):
+                if os.path.abspath(src_) != os.path.abspath(dst_):
+                    shutil.copy(src_, dst_)
+            cp(patch, os.path.join(dst, "patch.diff"))
+            cp(demo, os.path.join(dst, os.path.basename(demo)))
             rd = os.path.join(a.srcdir, "README.md")
             if os.path.exists(rd):
-                shutil.copy(rd, os.path.join(dst, "README.md"))
+                cp(rd, os.path.join(dst, "README.md"))
+            for extra in glob.glob(os.path.join(a.srcdir, "*.cpp")) + glob.glob(os.path.join(a.srcdir, "*.sh")):
+                cp(extra, os.path.join(dst, os.path.basename(extra)))
             with open(os.path.join(dst, "meta.json"), "w") as f:
                 json.dump(meta, f, indent=1)
             print("KEPT", dst)
